@@ -109,6 +109,97 @@ def specs(T):
                     "sort_values(by=['_sort_key_', 'start', 'end'], kind='mergesort')")
     T.body_contains(TI, 'read', "result.sort()")
 
+    # ---- extension: BED column rule, GFF gene extraction, SEG name maps, Picard, VCF ends,
+    #      sorter_chrom (every statement of the function bodies the models mirror)
+    T.body_contains(BED, 'read_bed', "fields = line.split('\\t', 6)")
+    T.body_contains(BED, 'read_bed', "chrom, start, end = fields[:3]")
+    T.body_contains(BED, 'read_bed', "if firstline.startswith('browser '):")
+    T.body_contains(BED, 'read_bed', "if not firstline.startswith('track'):")
+    T.body_contains(BED, 'read_bed', "if line.startswith('track'):\n                    break")
+    T.body_contains(BED, 'write_bed', "if len(dframe.columns) == 3:\n        return write_bed3(dframe)")
+    T.body_contains(BED, 'write_bed', "return dframe")
+    T.body_contains(BED, 'read_bed3', "table.loc[:, ['chromosome', 'start', 'end']]")
+    T.body_contains(BED, 'read_bed4', "table.loc[:, ['chromosome', 'start', 'end', 'gene']]")
+
+    T.body_contains(GFF, 'read_gff', "colnames = ['chromosome', 'source', 'type', 'start', 'end', 'score', 'strand', 'phase', 'attribute']")
+    T.body_contains(GFF, 'read_gff', "comment='#'")
+    T.body_contains(GFF, 'read_gff', "na_filter=False")
+    T.body_contains(GFF, 'read_gff', ".sort_values(['chromosome', 'start', 'end']).reset_index(drop=True)")
+    T.body_contains(GFF, 'read_gff', "if keep_type:\n        ok_type = dframe['type'] == keep_type")
+    T.body_contains(GFF, 'read_gff', "dframe = dframe[ok_type]")
+    T.body_contains(GFF, 'read_gff', "matches = dframe['attribute'].str.extract(rx, expand=True)['gene']")
+    T.body_contains(GFF, 'read_gff', "dframe['gene'] = dframe['gene'].fillna('-').astype('str')")
+    T.body_contains(GFF, 'read_gff', "dframe['gene'] = ['-'] * len(dframe)")
+    gff_rx = None
+    for n in ast.walk(T.find_func(GFF, 'read_gff')):
+        if isinstance(n, ast.Call) and ast.unparse(n.func) == 're.compile' and len(n.args) == 1 \
+                and isinstance(n.args[0], ast.BinOp) and isinstance(n.args[0].op, ast.Add) \
+                and isinstance(n.args[0].left, ast.Name) and n.args[0].left.id == 'tag' \
+                and isinstance(n.args[0].right, ast.Constant) and isinstance(n.args[0].right.value, str):
+            if gff_rx is not None:
+                raise T.Refuse('%s: read_gff compiles more than one tag pattern' % GFF)
+            gff_rx = n.args[0].right.value
+    if gff_rx is None:
+        raise T.Refuse('%s: read_gff: re.compile(tag + <literal>) not found' % GFF)
+    gff_tag = T.default(GFF, 'read_gff', 'tag')
+    import re as _re
+    if not _re.fullmatch(r'\(\w+(\|\w+)*\)', gff_tag or ''):
+        raise T.Refuse('%s: read_gff default tag %r is not a group of literal alternatives' % (GFF, gff_tag))
+    gff_tags = gff_tag[1:-1].split('|')
+    if T.default(GFF, 'read_gff', 'keep_type') is not None:
+        raise T.Refuse('%s: read_gff keep_type default is not None' % GFF)
+
+    T.body_contains(SEG, 'parse_seg', "if chrom_names:\n        dframe['chromosome'] = dframe['chromosome'].replace(chrom_names)")
+    T.body_contains(SEG, 'parse_seg', "if chrom_prefix:\n        dframe['chromosome'] = dframe['chromosome'].apply(lambda c: chrom_prefix + c)")
+    T.body_contains(SEG, 'create_chrom_ids', "((chrom, i + 1) for i, chrom in enumerate(segments.chromosome.drop_duplicates()) if str(i + 1) != chrom)")
+    T.body_contains(SEG, 'format_seg', "chroms = dframe.chromosome.replace(chrom_ids) if chrom_ids else dframe.chromosome")
+    T.body_contains('cnvlib/commands.py', '_cmd_import_seg', "chrom_names = dict((kv.split(':') for kv in args.chromosomes.split(',')))")
+    T.body_contains('cnvlib/commands.py', '_cmd_import_seg',
+                    "tabio.seg.parse_seg(args.segfile, chrom_names, args.prefix, args.from_log10)")
+
+    T.body_contains(PIC, 'read_picard_hs', "dframe.columns = ['chromosome', 'start', 'end', 'length', 'gene', 'gc', 'depth', 'ratio']")
+    T.body_contains(PIC, 'read_picard_hs', "del dframe['length']")
+    T.body_contains(PIC, 'write_picard_hs', "('length', dframe['end'] - dframe['start'])")
+    T.body_contains(PIC, 'write_picard_hs', "('name', dframe['gene'])")
+
+    T.body_contains(VS, 'parse_end_from_info', "if idx == -1:\n        return -1")
+    T.body_contains(VS, 'parse_end_from_info', "idx = info.find(';')\n    if idx != -1:\n        info = info[:idx]\n    return int(info)")
+    vcf_end_key = T.call_arg(VS, 'parse_end_from_info', 'info.find', 0, nth=0)
+    skips = [v for v in T.numbers_in(VS, 'parse_end_from_info') if v not in (1,)]
+    if skips != [len(vcf_end_key)]:
+        raise T.Refuse('%s: parse_end_from_info: the slice after %r skips %r characters, not %d'
+                       % (VS, vcf_end_key, skips, len(vcf_end_key)))
+    T.body_contains(VS, 'parse_end_from_info', "info = info[idx + %d:]" % len(vcf_end_key))
+    T.body_contains(VS, 'set_ends', "ref_sz = table.loc[need_end_idx, 'ref'].str.len()")
+    T.body_contains(VS, 'set_ends', "alt_sz = table.loc[need_end_idx, 'alt'].str.len()")
+    T.body_contains(VS, 'set_ends', "var_sz = alt_sz - ref_sz")
+    T.body_contains(VS, 'set_ends', "table.loc[need_end_idx, 'end'] = table.loc[need_end_idx, 'start'] + var_sz")
+    T.body_contains(VS, 'read_vcf_simple', "table['end'] = table['info'].apply(parse_end_from_info)")
+    T.body_contains(VS, 'read_vcf_sites', "converters={'end': parse_end_from_info, 'qual': parse_qual}")
+    T.body_contains(VS, 'read_vcf_sites', "colnames = ['chromosome', 'start', 'id', 'ref', 'alt', 'qual', 'filter', 'end']")
+    T.body_contains(VIO, '_get_end', "if 'END' in info:\n        return info['END']\n    return posn + len(alt)")
+    T.body_contains(VIO, '_parse_records', "for alt in record.alts:")
+    T.body_contains(VIO, '_parse_records', "end = _get_end(start, alt, record.info)")
+
+    CS = 'skgenome/chromsort.py'
+    for frag in ("chrom = label[3:] if label.lower().startswith('chr') else label",
+                 "nums = ''.join(takewhile(str.isdigit, chrom))",
+                 "chars = chrom[len(nums):]",
+                 "nums = int(nums) if nums else 0",
+                 "if not chars:\n            key = (nums, '')",
+                 "elif len(chars) == 1:",
+                 "return key"):
+        T.body_contains(CS, 'sorter_chrom', frag)
+    xy = [v for (l, o, v) in T.compares(CS, 'sorter_chrom') if l == 'chrom' and o == 'In']
+    if len(xy) != 1:
+        raise T.Refuse('%s: sorter_chrom: expected one `chrom in (...)` test, found %r' % (CS, xy))
+    ranks = [v for v in T.numbers_in(CS, 'sorter_chrom') if v >= 100]
+    if len(ranks) != 3:
+        raise T.Refuse('%s: sorter_chrom: expected three rank offsets, found %r' % (CS, ranks))
+    T.body_contains(CS, 'sorter_chrom', "key = (%d, chrom)" % ranks[0])
+    T.body_contains(CS, 'sorter_chrom', "key = (%d + nums, chars)" % ranks[1])
+    T.body_contains(CS, 'sorter_chrom', "key = (%d + nums, chars)" % ranks[2])
+
     return {'Formats': [
         # signed offset applied to the textual start coordinate by each reader
         ('off_read_bed', 'Z', _start_offset(T, BED, 'read_bed', 0)),
@@ -150,4 +241,16 @@ def specs(T):
         ('pat_gff', 'list string', pd['gff']),
         ('pat_bed', 'list string', pd['bed']),
         ('pat_label', 'string', label_pat),
+        # extension: GFF gene extraction, VCF ends, sorter_chrom ranks
+        ('gff_default_tags', 'list string', gff_tags),
+        ('pat_gff_gene', 'string', gff_rx),
+        ('gff_default_gene', 'string', '-'),
+        ('vcf_end_key', 'string', vcf_end_key),
+        ('vcf_end_missing', 'Z', T.compare_with(VS, 'set_ends', 'table.end', 'Eq')),
+        ('vcf_end_clip', 'Z', T.call_kw(VS, 'set_ends', 'clip', 'lower')),
+        ('vcf_nonref', 'string', T.compare_with(VIO, '_parse_records', 'alt', 'Eq')),
+        ('sorter_xy_names', 'list string', list(xy[0])),
+        ('sorter_rank_xy', 'Z', ranks[0]),
+        ('sorter_rank_single', 'Z', ranks[1]),
+        ('sorter_rank_long', 'Z', ranks[2]),
     ]}
